@@ -105,6 +105,9 @@ def _worker(conn, modname):
             conn.send(("err", idx, traceback.format_exc()))
 
 
+MAX_HANGS = 3  # after this many tasks ran into the wall-clock limit the verdict (violation: hang) stands; the tasks not yet started are skipped
+
+
 def run_tasks(modname, tasks, jobs, task_limit_s, progress=True):
     """Returns (results by index, errors list, hangs list)."""
     ctx = mp.get_context("fork")
@@ -173,6 +176,10 @@ def run_tasks(modname, tasks, jobs, task_limit_s, progress=True):
             elif task_limit_s and now - w["t0"] > task_limit_s:
                 hangs.append(w["idx"])
                 done += 1
+                if len(hangs) >= MAX_HANGS and nxt < n:
+                    print("  .. %d tasks exceeded the wall-clock limit: %d tasks not started are skipped (the run is already a violation)" % (len(hangs), n - nxt), file=sys.stderr, flush=True)
+                    done += n - nxt
+                    nxt = n
                 try:
                     w["proc"].kill()
                 except Exception:
